@@ -422,13 +422,18 @@ Section Step.
                             | Some a, Some d => Some (a * 10 + d)
                             | _, _ => None end) s (Some 0).
 
+  (* Server.pwd: every double quote (code point 34) of str(cwd) is doubled *)
+  Definition dbl_quote (t : text) : text :=
+    flat_map (fun c => if c =? 34 then [34; 34] else [c]) t.
+
   (* ---- handler bodies by name; [self] runs another handler (delegation) *)
   Definition body (self : string -> text -> dataact -> bool -> world -> result)
              (name : string) (arg : text) (d : dataact) (appe : bool) (w : world) : result :=
     let s := w_s w in
     let p := resolve (s_cwd s) arg in
     if String.eqb name "user" then
-      (* notify_logout; del user; del logged; lookup *)
+      (* notify_logout; del user; del logged; del rename_from; lookup *)
+      let s := set_rnfr s None in
       match find_user users 0 arg None with
       | None => (set_sess w (set_login s None false (s_cwd s)), mk_out [code "530"], true)
       | Some i =>
@@ -453,7 +458,7 @@ Section Step.
            end
     else if String.eqb name "quit" then (w, mk_out [code "221"], false)
     else if String.eqb name "pwd" then
-      (w, {| o_codes := [code "257"]; o_info := [34] ++ path_str (s_cwd s) ++ [34];
+      (w, {| o_codes := [code "257"]; o_info := [34] ++ dbl_quote (path_str (s_cwd s)) ++ [34];
              o_bytes := None; o_listing := None |}, true)
     else if String.eqb name "cwd" then (set_sess w (set_cwd s p), mk_out [code "250"], true)
     else if String.eqb name "cdup" then self "cwd"%string (path_str (removelast (s_cwd s))) d false w
